@@ -62,6 +62,7 @@ func c42Report(r *verifrt.Run, prop string, o *c42Obs, sampleBudget *int) {
 	r.Count("consumer_ticks", o.CCTicks)
 	r.Count("consumer_ticks_clean", o.CleanTicks)
 	r.Count("producer_found_demand_limited", o.DemandLimited)
+	r.Count("producer_demand_above_requested_states", o.DemandAbove)
 	r.Count("sequenced_at_demand_edge", o.AtDemandEdge)
 	r.Max("max_consumer_buffer", int64(o.MaxBuf))
 	if o.Stalled {
